@@ -842,7 +842,7 @@ func isSinkOrThinWrapper(p *Program, in ssa.Instruction, verb string) bool {
 // record that contains additions the raw child lacks makes every child look "not updated yet".
 func lastAppliedIsHookAnswer(r *Report, p *Program, rule string) {
 	r.Rule(rule, "updateChildren: no setter is applied to the desired child before it is handed to ApplyUpdate / SetLastApplied in the same iteration (own additions come after the last-applied record)")
-	r.Floor(rule, 2)
+	r.Floor(rule, 1)
 	f := fn(r, p, rule, "controller/common.updateChildren")
 	if f == nil {
 		return
